@@ -295,6 +295,37 @@ def r4_caches_and_bedgraph(ctx):
                "between records)", not cols, u(a), key=f"C09-R4|gap-filled|{u(a.targets[0])}|{sym.canon(a.value)[:60]}")
 
 
+def r6_sorted_sizes_and_fresh_dense(ctx):
+    """(a) `sort_names=True` re-orders the chromosome table: every name keeps ITS size (keys and values are permuted together); (b) the dense array of a
+    chromosome is new memory (a view of the run-length values would let a caller's in-place edit change the track)."""
+    ix = ctx.index
+    g = ix.func("bionumpy.genomic_data.genome", "Genome.__init__")
+    cs = g.params[1]
+    asg = [x for x in body_walk(g.node) if isinstance(x, ast.Assign) and u(x.targets[0]) == cs]
+    ctx.floor("re-orderings of the chromosome size table in Genome.__init__", len(asg), 1)
+    for a in asg:
+        v = a.value
+        if isinstance(v, ast.DictComp) and len(v.generators) == 1 and isinstance(v.generators[0].target, ast.Name):
+            k = v.generators[0].target.id
+            ok = u(v.key) == k and sym.canon(v.value) == f"{cs}[{k}]" and sym.canon(v.generators[0].iter) in (f"sorted({cs}.keys())", f"sorted({cs})")
+        elif isinstance(v, ast.Call) and u(v.func) == "dict" and len(v.args) == 1 and sym.canon(v.args[0]) in (f"sorted({cs}.items())",):
+            ok = True
+        elif isinstance(v, ast.Call) and u(v.func) == "dict" and len(v.args) == 1 and isinstance(v.args[0], ast.Call) and u(v.args[0].func) == "zip":
+            z = v.args[0].args
+            ok = len(z) == 2 and ("sorted" in u(z[0])) == ("sorted" in u(z[1])) and "sorted" not in u(z[0])      # sorting one side only mis-pairs names and sizes
+        else:
+            raise Unrecognised(f"{g.where}: the chromosome table is re-ordered in an unknown form: {u(a)}")
+        ctx.ob(g.where, "sorting the chromosome names keeps every name paired with its own size", ok, u(a), key="C09-R6|sorted-sizes")
+    from .c20 import _analysis
+    an = _analysis(ctx)
+    key = ("bionumpy.arithmetics.intervals", "GenomicRunLengthArray.to_array")
+    ctx.need(key in an.summaries, "GenomicRunLengthArray.to_array has no summary")
+    ret = an.summaries[key].returns
+    shared = sorted(str(t) for t in ret if isinstance(t, tuple))
+    ctx.ob(an.funcs[key].where, "the dense array of a run-length array is new memory (never the array of run values itself)", not shared, f"return provenance {sorted(map(str, ret))}",
+           key="C09-R6|dense-fresh")
+
+
 from ..through_time import make_rule as _mk_tt
 _through_time = _mk_tt("C09")
 
@@ -309,4 +340,5 @@ RULES = [
     ("C09-R4", r4_caches_and_bedgraph),
     ("C09-T1", _through_time),
     ("C09-R5", _genome_size_and_bins),
+    ("C09-R6", r6_sorted_sizes_and_fresh_dense),
 ]
